@@ -477,7 +477,7 @@ def run(res, replay=None):
         "a SIGKILL timeout of 60 s per invocation stands for 'hang'",
         "lib/corrupt.py, lib/jbd2enc.py: generators of damaged images, journals, undo files and qcow2 images",
     ]
-    res.cov["partial"] = ["this property is about the C runtime: proved is only the bounds logic of two parsers (directory record walk, journal tag counting); memory safety of the code is observed by sanitizers on the sampled inputs, not proved",
+    res.cov["partial"] = ["this property is about the C runtime: proved is only the bounds logic of three parsers (directory record walk, journal tag counting, attribute value bounds), the termination of e2fsck's relocate-and-restart protocol and e2image's inode-table length; memory safety of the code is observed by sanitizers on the sampled inputs, not proved",
                           "mounted filesystems, block devices and 64k-block directories are outside the campaign"]
     for nm, op, sz in c03.BASES[:2]:
         c03.base_image(src, nm, op, sz)
